@@ -646,6 +646,14 @@ class Blockwise(ArrayExpr):
 
                 if arg_ind is None:
                     new_args.extend([arg, arg_ind])
+                elif not hasattr(arg, "_meta"):
+                    # Non-array args (e.g. ArrayOffsetDep) are per-block
+                    # payloads keyed by block position: they can't be sliced,
+                    # and stay valid only while their axes keep every block.
+                    for dim_idx in arg_ind:
+                        if dim_idx in out_ind and slice_index[out_ind.index(dim_idx)] != slice(None):
+                            return None
+                    new_args.extend([arg, arg_ind])
                 else:
                     arg_slices = []
                     for arg_axis, dim_idx in enumerate(arg_ind):
